@@ -230,3 +230,58 @@ def pump_families(pattern):
             for suf in ["!", "\x00", "!" + reps[0]]:
                 fams.append((pre, pump, suf))
     return fams
+
+
+# ---- nesting depth: the work done by the field validators while a document is read (counted, and timed)
+def nested_text(fmt, depth):
+    """a legal document whose variants form one chain of the given depth (written here, not by the library)"""
+    import json
+    uids = ["-".join("V%d" % j for j in range(i + 1)) for i in range(depth)]
+    if fmt == "composeinfo":
+        variants = {}
+        for i, uid in enumerate(uids):
+            v = {"arches": ["x86_64"], "id": "V%d" % i, "name": "V%d" % i, "paths": {}, "type": "variant" if i == 0 else "optional", "uid": uid}
+            if i + 1 < depth:
+                v["variants"] = ["V%d" % (i + 1)]
+            variants[uid] = v
+        return json.dumps({"header": {"type": "productmd.composeinfo", "version": "1.2"},
+                           "payload": {"compose": {"date": "20240101", "id": "F-1-20240101.0", "respin": 0, "type": "production"},
+                                       "release": {"internal": False, "name": "F", "short": "F", "type": "ga", "version": "1"},
+                                       "variants": variants}})
+    out = ["[header]\ntype = productmd.treeinfo\nversion = 1.2\n", "[release]\nname = F\nshort = F\nversion = 1\n",
+           "[tree]\narch = x86_64\nbuild_timestamp = 1\nplatforms = x86_64\nvariants = V0\n"]
+    for i, uid in enumerate(uids):
+        sec = "[variant-%s]\n" % uid
+        if i + 1 < depth:
+            sec += "addons = %s\n" % uids[i + 1]
+        sec += "id = V%d\nname = V%d\n" % (i, i)
+        if i:
+            sec += "parent = %s\n" % uids[i - 1]
+        sec += "type = %s\nuid = %s\n" % ("variant" if i == 0 else "optional", uid)
+        out.append(sec)
+    return "\n".join(out)
+
+
+def impl_nesting(case):
+    """[seconds, number of validate()/_validate_*() calls, outcome] of loading (and writing again) a chain of the given depth"""
+    import sys
+    import productmd.composeinfo as CI
+    import productmd.treeinfo as TI
+    text = nested_text(case["fmt"], case["depth"])
+    o = CI.ComposeInfo() if case["fmt"] == "composeinfo" else TI.TreeInfo()
+    n = [0]
+
+    def prof(frame, event, arg):
+        if event == "call" and frame.f_code.co_name.startswith(("validate", "_validate")):
+            n[0] += 1
+    t0 = time.perf_counter()
+    sys.setprofile(prof)
+    try:
+        o.loads(text)
+        o.dumps()
+        out = "ok"
+    except Exception as e:
+        out = type(e).__name__
+    finally:
+        sys.setprofile(None)
+    return [time.perf_counter() - t0, n[0], out]
